@@ -419,3 +419,69 @@ func PlantSliceNamed(t *rapid.T, cfg *Config) bool {
 	cfg.Regs = append(cfg.Regs, Reg{ID: nextID, Life: Scoped, Form: FormPlain, Outs: []OutSpec{{T: TSl, Impl: NumD}}, Name: name})
 	return true
 }
+
+// PlantLateCaptive makes a captive dependency that exists only at the second
+// Build of the collection: a long-lived registration gets an optional
+// dependency (the first field of its parameter object, other fields follow) on
+// a scoped service that is registered later, and the collection is built once
+// in between (Config.PreBuild) - while the optional dependency is still
+// unprovided. The final Build must refuse the set like any other captive
+// dependency. Returns false when the configuration offers no opportunity.
+func PlantLateCaptive(t *rapid.T, cfg *Config) bool {
+	m, err := NewModel(cfg)
+	if err != nil {
+		return false
+	}
+	type pair struct{ a, b int }
+	var cands []pair
+	for i := range cfg.Regs {
+		a := &cfg.Regs[i]
+		if a.Life == Scoped || a.Form == FormInstance || a.Kind != KindMakeFunc || len(a.After) > 0 {
+			continue
+		}
+		for j := i + 1; j < len(cfg.Regs); j++ {
+			b := &cfg.Regs[j]
+			if b.Life != Scoped || len(b.Provides()) == 0 || len(b.Dropped) > 0 || b.StandIn || m.reaches(b.ID, a.ID) {
+				continue
+			}
+			cands = append(cands, pair{i, j})
+		}
+	}
+	if len(cands) == 0 {
+		return false
+	}
+	p := rapid.SampledFrom(cands).Draw(t, "lateCaptivePair")
+	a := &cfg.Regs[p.a]
+	d, ok := depOn(t, &cfg.Regs[p.b])
+	if !ok || d.Group != "" {
+		return false
+	}
+	d.Optional = true
+	kept := false
+	for _, x := range a.Deps {
+		if x.Builtin == 0 && !x.Ignored && len(m.DepTargets(x)) > 0 {
+			kept = true
+		}
+	}
+	if !kept {
+		// a dependency that is provided at the first Build already has to follow
+		for k := 0; k < p.b && !kept; k++ {
+			c := &cfg.Regs[k]
+			if k == p.a || c.Life == Scoped || m.reaches(c.ID, a.ID) || len(c.Dropped) > 0 {
+				continue
+			}
+			if dc, ok := depOn(t, c); ok && dc.Group == "" {
+				dc.Optional = false
+				a.Deps = append(a.Deps, dc)
+				kept = true
+			}
+		}
+	}
+	if !kept {
+		return false
+	}
+	a.Deps = append([]DepSpec{d}, a.Deps...)
+	a.UseIn = true
+	cfg.PreBuild = p.b
+	return true
+}
